@@ -493,6 +493,21 @@ def check_natural_failures(ctx):
          lambda w: q.isotherm_to_db(pygaps.PointIsotherm(pressure=[1.0, 2.0], loading=[1.0, 2.0], material={'name': 'matN', 'density': 1.25, 'comment': None}, adsorbate='gasA',
                                                          temperature=300.0, **rs.UNITS), db_path=w, autoinsert_material=True, verbose=False)),
     ]
+    # multi-valued (list) properties are stored as several rows: a failure AFTER them must still undo everything
+    cases += [
+        ('empty', 'material_to_db(list property, then a property None)',
+         lambda w: q.material_to_db(pygaps.Material('matN', density=2.5, tags=['a', 'b', 'c'], comment=None), db_path=w, verbose=False)),
+        ('with-m1', 'material_to_db(matA, list property, then a property None, overwrite=True)',
+         lambda w: q.material_to_db(pygaps.Material('matA', density=9.0, tags=['x', 'y'], comment=None), db_path=w, overwrite=True, verbose=False)),
+        ('with-a1', 'isotherm_to_db(auto-inserted material has a list property, then a None property)',
+         lambda w: q.isotherm_to_db(pygaps.PointIsotherm(pressure=[1.0, 2.0], loading=[1.0, 2.0], material={'name': 'matN', 'density': 1.25, 'tags': ['a', 'b'], 'comment': None},
+                                                         adsorbate='gasA', temperature=300.0, **rs.UNITS), db_path=w, autoinsert_material=True, verbose=False)),
+        ('empty', 'adsorbate_to_db(alias list, tag list, then a property None)',
+         lambda w: q.adsorbate_to_db(pygaps.Adsorbate('gasN', alias=['n1', 'n2'], tags=['t1', 't2'], molar_mass=None), db_path=w, verbose=False)),
+        ('with-a1', 'isotherm_to_db(auto-inserted material has a list property; the isotherm then fails on a None metadata value)',
+         lambda w: q.isotherm_to_db(pygaps.PointIsotherm(pressure=[1.0, 2.0], loading=[1.0, 2.0], material={'name': 'matN', 'density': 1.25, 'tags': ['a', 'b']},
+                                                         adsorbate='gasA', temperature=300.0, remark=None, **rs.UNITS), db_path=w, autoinsert_material=True, verbose=False)),
+    ]
     for prep, label, fn in cases:
         def task():
             prepared = os.path.join(sdir, 'nat-prepared.db')
